@@ -46,7 +46,7 @@ var t0 = time.Unix(1_700_000_000, 0)
 
 func genOp(valid bool, ttl int) *rapid.Generator[Op] {
 	return rapid.Custom(func(t *rapid.T) Op {
-		w := rapid.IntRange(0, 99).Draw(t, "opkind")
+		w := stats.Pct(t, "opkind")
 		if valid {
 			// remap so that clock advances and collections are frequent enough to expire,
 			// collect and shrink: put 38, badput 5, replay 25, gc 12, advance 20
@@ -70,7 +70,7 @@ func genOp(valid bool, ttl int) *rapid.Generator[Op] {
 			return Op{Kind: "badput", Topics: genTopics.Draw(t, "topics"), Bad: rapid.IntRange(0, 2).Draw(t, "bad"), FailSend: -1}
 		case w < 80 || !valid:
 			op := Op{Kind: "replay", Topics: genTopics.Draw(t, "topics"), FailSend: -1}
-			k := rapid.IntRange(0, 99).Draw(t, "idkind")
+			k := stats.Pct(t, "idkind")
 			switch {
 			case k < 40:
 				op.IDKind = "buf"
